@@ -4,6 +4,8 @@
   core/Std imports only.
 -/
 import Nervus.Model.MemTable
+import Nervus.Model.Generated.WalOrder
+import Nervus.Model.Generated.Sizes
 namespace Nervus.Storage
 
 /-- `LabelId::MAX`: the query layer's "no label" marker (UNLABELED_LABEL_ID) -/
@@ -30,6 +32,37 @@ def load (disk : List I2e) : IdMap :=
   { e2i := (disk.zipIdx.filter (fun p => p.1.ext != 0)).map (fun p => (p.1.ext, p.2)),
     i2l := disk.map (fun r => [r.label]),
     i2e := disk }
+
+/-! ### the node table on disk: a run of pages with `R` records each -/
+
+/-- the pages of the table: record `k` sits on page `k / R` in slot `k % R` (idmap.rs i2e_location) -/
+def tablePages (R : Nat) (recs : List I2e) : List (List I2e) :=
+  (List.range ((recs.length + R - 1) / R)).map (fun i => (recs.drop (i * R)).take R)
+
+/-- read_i2e_record: record `k` -/
+def readRec (R : Nat) (pages : List (List I2e)) (k : Nat) : Option I2e :=
+  (pages[k / R]?).bind (fun pg => pg[k % R]?)
+
+/-- IdMap::load, record by record: `for k in 0..i2e_len { read_i2e_record(k) }` -/
+def readPerRecord (R : Nat) (pages : List (List I2e)) (n : Nat) : List I2e :=
+  (List.range n).filterMap (readRec R pages)
+
+/-- IdMap::load, page by page: every page once, `R` slots of each page but the last; of the last page
+    `n % R` slots (`modulo`) or what is left, `n - page_index * R` -/
+def readPerPage (modulo : Bool) (R : Nat) (pages : List (List I2e)) (n : Nat) : List I2e :=
+  let pc := (n + R - 1) / R
+  (List.range pc).flatMap (fun pi =>
+    let inPage := if pi + 1 == pc then (if modulo then n % R else n - pi * R) else R
+    ((pages[pi]?).getD []).take inPage)
+
+/-- the records IdMap::load gets out of the file that holds `recs` (`i2e_len = recs.length`), read the way
+    the current source reads them (regenerated table) -/
+def readNodeTable (recs : List I2e) : List I2e :=
+  if Generated.idmapLoadPerRecord then
+    readPerRecord Generated.i2eRecordsPerPage (tablePages Generated.i2eRecordsPerPage recs) recs.length
+  else
+    readPerPage Generated.idmapLoadLastPageModulo Generated.i2eRecordsPerPage
+      (tablePages Generated.i2eRecordsPerPage recs) recs.length
 
 /-- IdMap::next_internal_id -/
 def nextId (m : IdMap) : Nat := m.i2e.length
